@@ -157,6 +157,15 @@ type world struct {
 	// successfully rescanned that link after the flush (known finding: the
 	// per-interface rescan does not drop them from Felix's picture of the kernel)
 	flushedUnwantedAtRescan map[string]delRec
+	// routes at a key whose wanted route (as Felix saw the links) was on ANOTHER
+	// link when that other link was successfully rescanned: the per-interface
+	// rescan then drops Felix's record of the route that is really there
+	forgottenAtRescan map[string]string
+	// Felix's own picture of the links (last notification / last successful
+	// lookup); only used to attribute a violation to a known cause, never to
+	// decide whether something is a violation
+	felixView    map[string]viewRec
+	useFelixView bool
 	seenBy       map[int]time.Time
 	downSince    map[string]bool // iface got a "down" notification since the last Apply
 
@@ -184,6 +193,11 @@ type world struct {
 type delRec struct {
 	canon string
 	oif   int
+}
+
+type viewRec struct {
+	idx int
+	up  bool
 }
 
 func (w *world) now() time.Time { return w.mt.Now() }
@@ -337,11 +351,19 @@ func (w *world) expectedRoute(e desiredEntry) (string, bool) {
 			oif = 1
 		}
 	} else {
-		l := w.link(e.iface)
-		if l == nil || !w.linkUp(e.iface) {
-			return "", false
+		if w.useFelixView {
+			v, ok := w.felixView[e.iface]
+			if !ok || !v.up {
+				return "", false
+			}
+			oif = v.idx
+		} else {
+			l := w.link(e.iface)
+			if l == nil || !w.linkUp(e.iface) {
+				return "", false
+			}
+			oif = l.LinkAttrs.Index
 		}
-		oif = l.LinkAttrs.Index
 	}
 	t := e.target
 	typ, scope, onlink := kernelAttrs(t.Type)
@@ -499,10 +521,12 @@ func (n *nlWrap) LinkList() ([]netlink.Link, error) {
 	links, err := n.Interface.LinkList()
 	if err == nil {
 		t := w.now()
+		w.felixView = map[string]viewRec{}
 		for _, l := range links {
 			if _, ok := w.seenBy[l.Attrs().Index]; !ok {
 				w.seenBy[l.Attrs().Index] = t
 			}
+			w.felixView[l.Attrs().Name] = viewRec{l.Attrs().Index, l.Attrs().RawFlags&syscall.IFF_RUNNING != 0}
 		}
 	}
 	return links, err
@@ -526,6 +550,9 @@ func (n *nlWrap) LinkByName(name string) (netlink.Link, error) {
 		if _, ok := w.seenBy[l.Attrs().Index]; !ok {
 			w.seenBy[l.Attrs().Index] = w.now()
 		}
+		w.felixView[name] = viewRec{l.Attrs().Index, l.Attrs().RawFlags&syscall.IFF_RUNNING != 0}
+	} else if _, notFound := err.(netlink.LinkNotFoundError); notFound {
+		delete(w.felixView, name)
 	}
 	return l, err
 }
@@ -570,13 +597,30 @@ func (n *nlWrap) RouteListFilteredIter(family int, filter *netlink.Route, mask u
 		w.felixDeleted = map[string]delRec{}
 		w.flushed = map[string]delRec{}
 		w.flushedUnwantedAtRescan = map[string]delRec{}
+		w.forgottenAtRescan = map[string]string{}
 		w.r.Probe("full_listing_ok")
 	}
 	if !full && filter != nil {
 		if name := w.nameOfIdx(filter.LinkIndex); name != "" {
 			if err == nil {
 				delete(w.rescanLost, name)
+				w.useFelixView = true
 				exp := w.expected()
+				w.useFelixView = false
+				for k, e := range exp {
+					if len(e.acceptable) == 0 {
+						continue
+					}
+					onThisLink := true
+					for _, a := range e.acceptable {
+						if !strings.Contains(a, fmt.Sprintf(" oif=%d ", filter.LinkIndex)) {
+							onThisLink = false
+						}
+					}
+					if rt, ok := w.dp.RouteKeyToRoute[k]; ok && onThisLink && rt.LinkIndex != filter.LinkIndex && w.owned(&rt) {
+						w.forgottenAtRescan[k] = canon(&rt)
+					}
+				}
 				for k, d := range w.flushed {
 					if d.oif != filter.LinkIndex {
 						continue
@@ -675,6 +719,7 @@ func (n *nlWrap) routeReplace(rt *netlink.Route) error {
 		delete(w.felixDeleted, key)
 		delete(w.flushed, key)
 		delete(w.flushedUnwantedAtRescan, key)
+		delete(w.forgottenAtRescan, key)
 	}
 	return err
 }
@@ -715,6 +760,7 @@ func (n *nlWrap) RouteDel(rt *netlink.Route) error {
 	err := n.Interface.RouteDel(rt)
 	if err == nil {
 		w.felixDeleted[key] = delRec{canon(&old), old.LinkIndex}
+		delete(w.forgottenAtRescan, key)
 	}
 	w.r.Logf("  nl: RouteDel %s (was {%s}) -> %v", key, canon(&old), err)
 	return err
@@ -1012,6 +1058,11 @@ func (w *world) deliver(i int, lose bool) {
 			w.seenBy[ev.idx] = w.now()
 		}
 	}
+	if ev.state == ifacemonitor.StateNotPresent {
+		delete(w.felixView, ev.name)
+	} else {
+		w.felixView[ev.name] = viewRec{ev.idx, ev.state == ifacemonitor.StateUp}
+	}
 	w.sut(func() { w.rt.OnIfaceStateChanged(ev.name, ev.idx, ev.state) })
 }
 
@@ -1273,6 +1324,13 @@ func (w *world) classify(base, k string, acceptable []string) string {
 			}
 		}
 	}
+	if c, ok := w.forgottenAtRescan[k]; ok && base == "owned_undesired_route_remains" {
+		if rt, ok := w.dp.RouteKeyToRoute[k]; ok && canon(&rt) == c {
+			// this very route was in the kernel, on another link, when Felix
+			// rescanned the link its replacement was wanted on
+			return "tracked_route_forgotten_by_iface_rescan"
+		}
+	}
 	if len(w.rescanLost) == 0 {
 		return base
 	}
@@ -1374,7 +1432,7 @@ func run(r *core.R) {
 		"full_listing_ok", "iface_listing_ok", "iface_listing_failed", "kernel_change_during_apply", "start_state_stale_owned_routes",
 		"start_state_foreign_routes", "sut_used_closed_netlink_handle", "converged_after_1", "converged_after_2", "converged_after_3", "conntrack_cleanup_called", "ipv6_run")
 
-	w := &world{r: r, desired: map[int]map[string]map[string]routetable.Target{}, conflictKeys: map[string]bool{}, rescanLost: map[string]bool{}, felixDeleted: map[string]delRec{}, flushed: map[string]delRec{}, flushedUnwantedAtRescan: map[string]delRec{}, staleKeys: map[string]bool{}, staleIfaces: map[string]bool{},
+	w := &world{r: r, desired: map[int]map[string]map[string]routetable.Target{}, conflictKeys: map[string]bool{}, rescanLost: map[string]bool{}, felixDeleted: map[string]delRec{}, flushed: map[string]delRec{}, flushedUnwantedAtRescan: map[string]delRec{}, forgottenAtRescan: map[string]string{}, felixView: map[string]viewRec{}, staleKeys: map[string]bool{}, staleIfaces: map[string]bool{},
 		replaceStuck: map[string]bool{}, seenBy: map[int]time.Time{}, downSince: map[string]bool{}, rate: map[string]int{}, staleAll: true, nextIdx: 2}
 
 	// ---- swarm configuration
